@@ -10,7 +10,7 @@ from sa.exc import CANCELLED
 from sa.flow import FnExit, Interp, TestAtom, WithEnter, WithExit, call_of
 
 CLAIM = {
-    "text": "Decides the structure that makes per-client datagram handling FIFO and single-handler for every arrival order: the per-client state is written only by three guarded transition functions realising exactly None->PENDING->RUNNING->None; every start of a client task is preceded, with no suspension point in between, by mark_pending() of the same client and the check-then-act sections (state test to mark_pending, the whole task-done hook, queue append before the first await) contain no suspension point, so no arrival can interleave; the client task marks itself running before its first await and runs the task-done hook on every exit; the hook restarts a task whenever the queue is non-empty; queues are touched only by append (right) and popleft; each datagram callback hands the datagram on exactly once; condition variables are per client; the queue length push_datagram() returns to the spawn decision is read after its last suspension point. A datagram taken out of a client's queue is never held across a cancellable suspension point or dropped by an exit (hold typestate of C10); the listener starts exactly one task per datagram, unconditionally, carrying that datagram.",
+    "text": "Decides the structure that makes per-client datagram handling FIFO and single-handler for every arrival order: the per-client state is written only by three guarded transition functions realising exactly None->PENDING->RUNNING->None; every start of a client task is preceded, with no suspension point in between, by mark_pending() of the same client and the check-then-act sections (state test to mark_pending, the whole task-done hook, queue append before the first await) contain no suspension point, so no arrival can interleave; the client task marks itself running before its first await and runs the task-done hook on every exit; the hook restarts a task whenever the queue is non-empty; queues are touched only by append (right) and popleft; each datagram callback hands the datagram on exactly once; condition variables are per client; the queue length push_datagram() returns to the spawn decision is read after its last suspension point. A datagram taken out of a client's queue is never held across a cancellable suspension point or dropped by an exit (hold typestate of C10); the listener starts exactly one task per datagram, unconditionally, carrying that datagram. Round 4: the queue length push_datagram() returns is read after its last suspension point; the datagram listeners hand the per-datagram handler down unchanged or through a wrapper that reaches it without a suspension point (no shared semaphore / lock in front of the handler).",
     "note": "Trusted: task-group start_soon runs tasks in FIFO order; asyncio/trio deliver datagram callbacks in arrival order. Not decided: liveness in time ('eventually handled').",
     "technique": "typestate on the client state machine, atomic-section analysis with interprocedural may-suspend summaries, exit-obligation and API-discipline queries over the ast program database",
 }
@@ -436,6 +436,33 @@ def check_fifo(eng, run):
     run.ob("C16.iso", "_ClientData:per-client-condition", ok)
 
 
+def check_handler_passthrough(eng, run):
+    """the datagram listeners hand the per-datagram handler down unchanged, or through a wrapper that reaches the handler call without
+    a suspension point: a wait on anything shared (a semaphore, a lock, a limiter) in front of the handler makes a datagram of
+    one client wait for the handler generators of other clients - which run inside those very tasks for their whole life"""
+    n = 0
+    for fn in eng.db.all_functions():
+        if isinstance(fn.node, ast.Lambda) or fn.name != "serve" or "datagram" not in fn.module.name or not any(a.arg == "handler" for a in fn.params()):
+            continue
+        n += 1
+        passes = [c for c in own_nodes(fn.node) if isinstance(c, ast.Call) and any(isinstance(a, ast.Name) and a.id == "handler" for a in list(c.args) + [k.value for k in c.keywords])]
+        wrappers = [g for g in fn.nested.values() if any(isinstance(c, ast.Call) and isinstance(c.func, ast.Name) and c.func.id == "handler" for c in own_nodes(g.node))]
+        lambdas = [x for x in own_nodes(fn.node) if isinstance(x, ast.Lambda) and any(isinstance(c, ast.Name) and c.id == "handler" for c in ast.walk(x.body))]
+        ok = True
+        for g in wrappers:
+            an = AtomicSection(eng, None, lambda x: isinstance(x, ast.Call) and isinstance(x.func, ast.Name) and x.func.id == "handler", armed_at_entry=True)
+            Interp(an, g).run()
+            good = bool(an.ends) and all(st == "armed" for _, st in an.ends)
+            if not good:
+                ok = False
+                run.finding("C16.iso", g, an.breaks[0] if an.breaks else g.node, "the per-datagram handler is wrapped and the wrapper can suspend before it runs the handler (a shared semaphore / lock / limiter): the first datagram "
+                            "of a client runs that client's whole handler generator inside its task, so datagrams of other clients wait for unrelated handlers to finish - slow handling of one client blocks the others")
+        if not passes and not wrappers and not lambdas:
+            raise AnalysisError(f"anchor vanished: {fn.qualname} no longer hands its handler on")
+        run.ob("C16.iso", f"{fn.module.name.split('.')[-3]}.{fn.short}:handler-reached-without-shared-wait", ok, wrappers=len(wrappers), direct=len(passes))
+    run.floor("C16.iso datagram listener serve() implementations", n, 2)
+
+
 def check_nothing_dropped(eng, run):
     """a datagram taken out of a client's queue reaches the handler: no cancellable suspension point, raising call or exit while a local
     still holds it (hold typestate of C10, datagram semantics: an empty payload is a datagram)"""
@@ -456,10 +483,13 @@ def check_nothing_dropped(eng, run):
 
 
 def run(eng, run):
+    from sa.anchors import verify as _verify_anchor_names
+    _verify_anchor_names(eng, run)
     run.not_decided += NOT_DECIDED
     check_state(eng, run)
     check_single_and_atomic(eng, run)
     check_fifo(eng, run)
+    check_handler_passthrough(eng, run)
     check_nothing_dropped(eng, run)
 
 
